@@ -197,6 +197,10 @@ def load_known_findings():
 def finish(report, ws, meta, t0, seed):
     """Apply known findings, write evidence, print the verdict lines, return the exit code."""
     prop = report.prop
+    # floor: a clause that evaluated nothing decided nothing (its rules were all vacuous on this tree) - no verdict rather than a pass
+    for cid in sorted(report.clauses):
+        if not any(o['clause'] == cid for o in report.obligations) and not any(m['clause'] == cid for m in report.anchor_missing):
+            report.missing(cid, 'no obligation was evaluated for this clause (%s): its rules found nothing to apply to' % report.clauses[cid][:80])
     known = [k for k in load_known_findings() if k['property'] == prop and k.get('status') == 'open']
     known_keys = {k['key']: k for k in known}
     viol = [o for o in report.obligations if o['status'] == 'violated']
